@@ -281,10 +281,9 @@ Proof.
   assert (Fb : Forall (sep_rel s smp) base).
   { rewrite Forall_forall. intros x Hx.
     assert (Hx' : In x (r_samples r)) by (destruct Hbase as [-> | ->]; [exact Hx|eapply remove_first_in; exact Hx]).
-    apply sep_rel_sym. intros E a b Ea Eb. rewrite Hh in E. rewrite Hts in Eb.
-    pose proof (Ord x Hx' E) as L. rewrite Ea, <- Eb' in L || idtac.
-    subst t. pose proof (Ord x Hx' E) as L'. rewrite Ea in L'. cbn in L'. apply Z.leb_le in L'.
-    pose proof (of_interest_true_sep r h b s x a Hs Hi Hx' E Ea L'). lia. }
+    apply sep_rel_sym. intros E a b Ea Eb. rewrite Hh in E. rewrite Hts in Eb. subst t.
+    pose proof (Ord x Hx' E) as L. rewrite Ea in L. cbn in L. apply Z.leb_le in L.
+    pose proof (of_interest_true_sep r h b s x a Hs Hi Hx' E Ea L). lia. }
   rewrite Hshape. destruct (q_bysrc (r_qos r)); [now apply insert_separated|now apply app_separated].
 Qed.
 
@@ -646,6 +645,7 @@ Proof.
 Qed.
 
 (* ------------------------------------------------------------------ witnesses *)
+Definition infos_of (c : coll_result) : list info := match c with CollOk l => l | _ => [] end.
 Definition wq : qos := mkQ false None None None None false (Some 8).
 Definition mAll : masks := mkM true true true true true true true.
 
